@@ -30,7 +30,7 @@ RULE = ("Hypothesis: images 4..64 x 4..64 (rows != cols mostly), 2-D, 3-D cubes 
         "are counted as ambiguous. Non-trivial = both blanked and kept pixels and >= 1 neighbouring pair on opposite sides; "
         "tables: both kept and removed rows; distinct = distinct case.")
 ASSUMPTIONS = [
-    "every image pixel lies within 60 deg of the projection reference point (beyond 90 deg a zenithal projection assigns no "
+    "every image pixel lies within a projection-plane radius of 50 deg of the reference point (SIN assigns no "
     "sky position to a pixel)",
     "rotation-free CDELT headers; the region's own correctness is C08/C09's job (the oracle reads the region's pixel set)",
     "4-D inputs are degenerate (one axis of length 1), which is what mask_file squeezes",
@@ -79,7 +79,7 @@ def build_wcs(c):
     # every pixel must have a sky position: keep the whole image within 60 deg of the reference point (SIN, TAN and
     # friends are undefined at/after 90 deg), by pulling an off-image reference pixel towards the image if needed
     far = max(math.hypot(x - cp1, y - cp2) for x in (1, nc) for y in (1, nr))
-    lim = 60.0 / s
+    lim = 50.0 / s       # (projection-plane radius: SIN ends at 180/pi = 57.3 deg)
     if far > lim:
         k = lim / far
         cx, cy = (nc + 1) / 2.0, (nr + 1) / 2.0
